@@ -479,10 +479,51 @@ def oracle_buffer(m, spec, res, T):
     buffered = bool(spec['opt'].get('buffer'))
     mode = 'buffer' if buffered else 'plain'
     # stream identity, monitored by the hooks themselves (pid 0 only: children alias stderr)
+    # (the world itself may put a stale stream back - 'reinstall_stdout': from then on the
+    # streams are the world's doing until the runner has had its next chance to restore them,
+    # i.e. until the end of the next test that starts afterwards)
+    # A TestResult remembers the streams it finds when it is created (per layer and iteration):
+    # a stale stream put back by a layer's testTearDown hook - after the runner's restore - is
+    # undone by the next test of the SAME result; if a new result is created first, the stale
+    # stream is what that one finds and nobody can know better (not judged from there on).
+    stale = None
+    last_site = None
+    cur = None           # (layer, iteration) of the test started last
+    stale_in = None
+
+    def result_of(ev_):
+        d_ = T.disc.get(ev_[2])
+        return (d_['layer'] if d_ else None, ev_[3])
+    stashed_in = None
+    foreign_reinstall = False
     for ev in res.trace:
-        if ev[0] != 0 or ev[1] == 'fault':
+        if ev[0] != 0:
+            continue
+        if ev[1] == 'fault':
+            if ev[2] == 'stash_stdout':
+                stashed_in = cur
+            if ev[2] == 'reinstall_stdout':
+                if stashed_in != cur:
+                    # the stream of ANOTHER result (layer, iteration): a foreign object
+                    foreign_reinstall = True
+                if stale != 'forever':
+                    stale = 'pending'
+                    stale_in = cur if last_site == 'layer.testTearDown' else None
             continue
         site = ev[1]
+        last_site = site
+        if site == 'test.run':
+            cur = result_of(ev)
+        if stale is not None:
+            if stale == 'forever':
+                continue
+            if site == 'test.run':
+                stale = 'started' if stale_in in (None, cur) else 'forever'
+                continue
+            if stale == 'started' and site in ('layer.testTearDown', 'test.ran'):
+                stale = None
+            else:
+                continue
         check = site in ('layer.testSetUp', 'layer.testTearDown', 'layer.setUp',
                          'layer.tearDown', 'test.run', 'test.ran')
         if not buffered and site.startswith('test.'):
@@ -497,14 +538,15 @@ def oracle_buffer(m, spec, res, T):
         viols.append(C.viol('C13/streams-not-restored-after-run/nested/%s' % mode,
                             'after a nested in-process run (started by a test) sys.stdout/'
                             'sys.stderr were not the objects that run had found'))
-    if not all(res.streams_restored):
+    if not all(res.streams_restored) and stale is None:
         how = 'raised' if res.raised else 'returned'
         viols.append(C.viol('C13/streams-not-restored-after-run/%s/%s' % (mode, how),
                             'after the run sys.stdout/sys.stderr restored = %r'
                             % (res.streams_restored,)))
     if not buffered or res.raised:
         return viols
-    if any(ev[1] == 'fault' and ev[2] == 'replace_stdout' for ev in res.trace):
+    if foreign_reinstall or \
+            any(ev[1] == 'fault' and ev[2] == 'replace_stdout' for ev in res.trace):
         # a test pointed a std stream at an object of its own: what it wrote there afterwards is
         # its own business - only the identity of the streams between tests is judged
         return viols
@@ -530,10 +572,15 @@ def oracle_buffer(m, spec, res, T):
     # (a test runs in exactly one process; children relay their output through the parent)
     for pid, evs in sorted(C.by_pid(res.trace).items()):
         occs, _ = C.occurrences(evs)
-        for oc in occs:
+        cut = False      # a stale stream was put back by the world: what is written from
+        for oc in occs:  # then on (this test and later ones) is not attributed
             last = None
             for ev in oc['events']:
+                if ev[1] == 'fault' and ev[2] == 'reinstall_stdout':
+                    cut = True
                 if ev[1] == 'fault' and ev[2].startswith('write:') and last is not None:
+                    if cut:
+                        continue
                     e = plan[ev[3]]
                     tok = e['text'].replace('%o', str(last[3])).strip()
                     written[tok] = (oc['tid'], oc['occ'])
